@@ -289,10 +289,17 @@ fn all_chars_of(k: usize) -> Vec<u32> {
 
 /// one DFA case under one property oracle
 fn dfa_case(kind: DKind, n: usize, k: usize, delta: &[usize], fin: &[bool], shape: usize, with_ops: bool, rep: &mut Report) -> Vec<String> {
-    let mut msgs = vec![];
     let chars = all_chars_of(k);
     let lay = layout(k);
-    let built = guarded(|| build_dfa(n, k, delta, fin, shape));
+    let spec = |q: usize, c: u32| delta[q * k + lay.iter().position(|l| l.contains(&c)).unwrap()];
+    automaton_case(kind, n, &|| build_dfa(n, k, delta, fin, shape), &chars, &spec, fin, with_ops, rep)
+}
+
+/// the checks of one property on one specified automaton, given as a function that builds it afresh
+fn automaton_case(kind: DKind, n: usize, build: &dyn Fn() -> Result<Automaton, aws_smt_strings::errors::Error>, chars: &[u32], spec: &dyn Fn(usize, u32) -> usize, fin: &[bool], with_ops: bool, rep: &mut Report) -> Vec<String> {
+    let mut msgs = vec![];
+    let chars = chars.to_vec();
+    let built = guarded(|| build());
     let a = match built {
         Err(e) => {
             if kind == DKind::C13 {
@@ -323,7 +330,7 @@ fn dfa_case(kind: DKind, n: usize, k: usize, delta: &[usize], fin: &[bool], shap
             if a.num_final_states() != nf {
                 msgs.push(format!("num_final_states() = {}, {} states were marked final", a.num_final_states(), nf));
             }
-            let r = guarded(|| find_renaming(&a, n, &|q, c| delta[q * k + lay.iter().position(|l| l.contains(&c)).unwrap()], &chars, fin));
+            let r = guarded(|| find_renaming(&a, n, spec, &chars, fin));
             match r {
                 Err(e) => msgs.push(format!("stepping the built automaton {}", e)),
                 Ok(None) => msgs.push("no renaming of states maps the specification to the built automaton: some successor or final flag is not the one specified".into()),
@@ -335,7 +342,7 @@ fn dfa_case(kind: DKind, n: usize, k: usize, delta: &[usize], fin: &[bool], shap
         }
         DKind::C04 => {
             if n >= 2 && with_ops {
-                op_sequences(&|| build_dfa(n, k, delta, fin, shape).ok(), &chars, rep, &mut msgs);
+                op_sequences(&|| build().ok(), &chars, rep, &mut msgs);
             }
             let r = guarded(|| {
                 let mut msgs = vec![];
@@ -374,7 +381,7 @@ fn dfa_case(kind: DKind, n: usize, k: usize, delta: &[usize], fin: &[bool], shap
         }
         DKind::C14 => {
             if n >= 2 && with_ops {
-                op_sequences(&|| build_dfa(n, k, delta, fin, shape).ok(), &chars, rep, &mut msgs);
+                op_sequences(&|| build().ok(), &chars, rep, &mut msgs);
             }
             let r = guarded(|| {
                 let mut msgs = vec![];
@@ -1088,5 +1095,221 @@ impl Engine for BldEngine {
         if let Some(m) = bld_case(init, &calls, rep) {
             rep.violation("C13", "bld", c.clone(), m);
         }
+    }
+}
+
+// =============================================================================================
+// "fan" automata: one state without default successor whose 4-5 range labels cover the alphabet and lead to
+// pairwise different states (so cleanup cannot promote a majority target to a default), among sparse states with a
+// default. Reached neither by the small exhaustive layouts (their 'other' letter always repeats) nor by small regexes.
+
+pub struct FanEngine {
+    pub kind: DKind,
+}
+
+const FAN_NB: usize = 60;
+/// letters: [0,a-1] a b c [c+1,MAX]; probe characters per letter
+fn fan_letters() -> Vec<(u32, u32)> {
+    vec![(0, A - 1), (A, A), (B, B), (B + 1, B + 1), (B + 2, MAX_CHAR)]
+}
+fn fan_chars() -> Vec<u32> {
+    let mut v = vec![];
+    for (l, h) in fan_letters() {
+        v.push(l);
+        if h != l {
+            v.push(h);
+        }
+    }
+    v
+}
+
+/// sparse state patterns: (character of the single explicit transition, its target, default target) relative to n and the state
+fn sparse_patterns(n: usize, q: usize, fan: usize) -> Vec<(u32, usize, usize)> {
+    vec![(A, 0, q), (B, (q + 1) % n, 0), (B + 1, fan, n - 1), (A, fan, fan), (B, q, (q + 2) % n)]
+}
+
+fn permutations_of(items: &[usize], len: usize) -> Vec<Vec<usize>> {
+    fn rec(items: &[usize], len: usize, cur: &mut Vec<usize>, out: &mut Vec<Vec<usize>>) {
+        if cur.len() == len {
+            out.push(cur.clone());
+            return;
+        }
+        for &x in items {
+            if !cur.contains(&x) {
+                cur.push(x);
+                rec(items, len, cur, out);
+                cur.pop();
+            }
+        }
+    }
+    let mut out = vec![];
+    rec(items, len, &mut vec![], &mut out);
+    out
+}
+
+#[derive(Clone, Debug)]
+struct FanCase {
+    n: usize,
+    fan: usize,
+    /// number of labels of the fan state: 4 (a and b merged into one label) or 5
+    nlabels: usize,
+    targets: Vec<usize>,
+    sparse: Vec<usize>,
+    fin: Vec<bool>,
+    /// order in which the states are specified: identity or fan state last
+    fan_last: bool,
+}
+
+fn fan_build(c: &FanCase) -> Result<Automaton, aws_smt_strings::errors::Error> {
+    let letters = fan_letters();
+    let mut b = AutomatonBuilder::new(&0usize);
+    let mut order: Vec<usize> = (0..c.n).collect();
+    if c.fan_last {
+        order.retain(|&q| q != c.fan);
+        order.push(c.fan);
+    }
+    for q in order {
+        if q == c.fan {
+            if c.nlabels == 5 {
+                for (i, &(l, h)) in letters.iter().enumerate() {
+                    b.add_transition(&q, &CharSet::range(l, h), &c.targets[i]);
+                }
+            } else {
+                // four labels: [0,a-1] [a,b] [c] [c+1,MAX]
+                let segs = [(0, A - 1), (A, B), (B + 1, B + 1), (B + 2, MAX_CHAR)];
+                for (i, &(l, h)) in segs.iter().enumerate() {
+                    b.add_transition(&q, &CharSet::range(l, h), &c.targets[i]);
+                }
+            }
+        } else {
+            let pats = sparse_patterns(c.n, q, c.fan);
+            let (ch, t, d) = pats[c.sparse[q] % pats.len()];
+            b.add_transition(&q, &CharSet::singleton(ch), &t);
+            b.set_default_successor(&q, &d);
+        }
+        if c.fin[q] {
+            b.mark_final(&q);
+        }
+    }
+    b.build()
+}
+
+fn fan_spec(c: &FanCase, q: usize, ch: u32) -> usize {
+    let letters = fan_letters();
+    let li = letters.iter().position(|&(l, h)| l <= ch && ch <= h).unwrap();
+    if q == c.fan {
+        if c.nlabels == 5 {
+            c.targets[li]
+        } else {
+            c.targets[[0, 1, 1, 2, 3][li]]
+        }
+    } else {
+        let pats = sparse_patterns(c.n, q, c.fan);
+        let (pc, t, d) = pats[c.sparse[q] % pats.len()];
+        if ch == pc {
+            t
+        } else {
+            d
+        }
+    }
+}
+
+fn fan_cases(tier: Tier, f: &mut dyn FnMut(usize, &FanCase)) {
+    let mut idx = 0usize;
+    let ns: Vec<usize> = if tier == Tier::Thorough { vec![5, 6] } else { vec![5] };
+    for n in ns {
+        let states: Vec<usize> = (0..n).collect();
+        for fan in [0usize, n / 2, n - 1] {
+            for nlabels in [4usize, 5] {
+                if nlabels > n {
+                    continue;
+                }
+                let perms = permutations_of(&states, nlabels);
+                let pstep = if tier == Tier::Thorough { 1 } else { 3 };
+                for targets in perms.iter().step_by(pstep) {
+                    // sparse patterns of the other states: all combinations of 5 patterns (thorough) or a diagonal slice
+                    let combos: u32 = 5u32.pow((n - 1) as u32);
+                    let cstep = if tier == Tier::Thorough { 7 } else { 41 };
+                    let mut code = (idx as u32 * 13) % cstep;
+                    while code < combos {
+                        let mut sparse = vec![0usize; n];
+                        let mut c = code;
+                        for q in 0..n {
+                            if q != fan {
+                                sparse[q] = (c % 5) as usize;
+                                c /= 5;
+                            }
+                        }
+                        for (fm, fan_last) in [(0u32, false), (1, true)] {
+                            let mask: u32 = if fm == 0 { 1 << (n - 1) } else { 0b10110 & ((1 << n) - 1) };
+                            let fin: Vec<bool> = (0..n).map(|q| mask >> q & 1 == 1).collect();
+                            let case = FanCase { n, fan, nlabels, targets: targets.clone(), sparse: sparse.clone(), fin, fan_last };
+                            f(idx, &case);
+                            idx += 1;
+                        }
+                        code += cstep;
+                    }
+                }
+            }
+        }
+    }
+}
+
+fn fan_json(c: &FanCase) -> Value {
+    json!({"engine": "fan", "n": c.n, "fan": c.fan, "nlabels": c.nlabels, "targets": c.targets, "sparse": c.sparse, "final": c.fin, "fan_last": c.fan_last})
+}
+
+impl Engine for FanEngine {
+    fn name(&self) -> &'static str {
+        "fan"
+    }
+    fn meta(&self, ctx: &Ctx) -> Meta {
+        let mut n = 0usize;
+        fan_cases(ctx.tier, &mut |_, _| n += 1);
+        Meta {
+            level: "model_checking",
+            rule: format!("{} automata with 5 (thorough: 6) states in which one state has no default successor and 4-5 range labels covering the alphabet that lead to pairwise different states (every injective assignment of targets; the state first, in the middle or last, specified before or after the others), the other states being sparse (one explicit transition + default, five patterns); the same checks as for the exhaustive small automata, including sequences of minimize / remove_unreachable_states", n),
+            assumptions: vec!["this family is structured, not exhaustive: it exists because a state without default needs at least four pairwise different successors, which the exhaustive layouts with <= 4 states cannot provide".into()],
+            exhaustive: true,
+            space: "see rule".into(),
+        }
+    }
+    fn num_batches(&self, _ctx: &Ctx) -> usize {
+        FAN_NB
+    }
+    fn run_batch(&self, ctx: &Ctx, batch: usize, rep: &mut Report) {
+        let chars = fan_chars();
+        fan_cases(ctx.tier, &mut |i, c| {
+            if i % FAN_NB != batch {
+                return;
+            }
+            beat();
+            rep.inc("evaluations");
+            rep.inc("fan_automata");
+            if self.kind == DKind::C13 {
+                rep.inc("nontrivial");
+            }
+            let msgs = automaton_case(self.kind, c.n, &|| fan_build(c), &chars, &|q, ch| fan_spec(c, q, ch), &c.fin, true, rep);
+            if !msgs.is_empty() {
+                rep.violation(self.kind.id(), "fan", fan_json(c), format!("fan automaton {:?}: {}", c, msgs.join(" | ")));
+            }
+        });
+    }
+    fn replay(&self, _ctx: &Ctx, v: &Value, rep: &mut Report) {
+        let us = |x: &Value| x.as_u64().unwrap_or(0) as usize;
+        let arr = |x: &Value| -> Vec<usize> { x.as_array().map(|a| a.iter().map(|y| y.as_u64().unwrap_or(0) as usize).collect()).unwrap_or_default() };
+        let c = FanCase { n: us(&v["n"]), fan: us(&v["fan"]), nlabels: us(&v["nlabels"]), targets: arr(&v["targets"]), sparse: arr(&v["sparse"]), fin: v["final"].as_array().map(|a| a.iter().map(|y| y.as_bool().unwrap_or(false)).collect()).unwrap_or_default(), fan_last: v["fan_last"].as_bool().unwrap_or(false) };
+        if c.n < 4 || c.targets.len() != c.nlabels || c.sparse.len() != c.n || c.fin.len() != c.n {
+            return;
+        }
+        rep.inc("evaluations");
+        let chars = fan_chars();
+        let msgs = automaton_case(self.kind, c.n, &|| fan_build(&c), &chars, &|q, ch| fan_spec(&c, q, ch), &c.fin, true, rep);
+        if !msgs.is_empty() {
+            rep.violation(self.kind.id(), "fan", v.clone(), msgs.join(" | "));
+        }
+    }
+    fn hang_is_violation(&self, _p: &str) -> bool {
+        self.kind == DKind::C04
     }
 }
